@@ -955,7 +955,7 @@ def late_binding_cases(rng, n):
     S = lambda x: ('str', x)
     out = []
     for _ in range(n):
-        kind = rng.randrange(9)
+        kind = rng.randrange(12)
         v1, v2, v3 = rng.sample([1, 2, 3, 5, 7, 10], 3)
         f = rng.choice(['name', 'k1', 'a'])
         g = rng.choice(['greeting', 'g', 'b'])
@@ -1041,6 +1041,28 @@ def late_binding_cases(rng, n):
             inner = ('binary', 'add', comp, ('object', [('fix', 'tag', False, 'd', None, S('inner'))]))
             outer = ('object', [('fix', 'tag', False, 'd', None, S('outer')), ('fix', 'c', False, 'd', None, inner)])
             out.append((('field', ('field', outer, 'c'), 'v'), ('ok', ['inner', 'outer'])))
+        elif kind == 9:
+            # a mixin WITHOUT fields still carries its asserts (on either side, with or without locals)
+            base = ('object', [('fix', 'x', False, 'd', None, N(v1))])
+            mix = ('object', ([('local', 'l', None, N(v1 + 100))] if rng.random() < 0.5 else []) +
+                   [('assert', ('binary', 'gt', ('field', ('self',), 'x'), N(v1 + (100 if rng.random() < 0.5 else 0))), S('mixin requires more'))])
+            combo = ('binary', 'add', base, mix) if rng.random() < 0.6 else ('binary', 'add', mix, base)
+            use = rng.choice([('field', combo, 'x'), combo, ('binary', 'add', combo, ('object', [('fix', 'y', False, 'd', None, N(v2))]))])
+            out.append((use, ('err', 'AssertFailed', 'mixin requires more')))
+        elif kind == 10:
+            # ... and the assert passes when the combination satisfies it; a locals-only mixin changes nothing
+            base = ('object', [('fix', 'x', False, 'd', None, N(v1))])
+            mix = ('object', [('assert', ('binary', 'ge', ('field', ('self',), 'x'), N(v1)), S('never'))])
+            loc = ('object', [('local', 'l', None, ('error', S('unused local')))])
+            prog = ('array', [('binary', 'add', ('binary', 'add', base, mix), loc), ('binary', 'add', loc, ('binary', 'add', mix, base)),
+                              ('field', ('binary', 'add', ('binary', 'add', base, loc), ('object', [('fix', 'x', True, 'd', None, N(v2))])), 'x')])
+            out.append((prog, ('ok', [{'x': v1}, {'x': v1}, v1 + v2])))
+        elif kind == 11:
+            # an object comprehension below other layers: its fields see ITS layer's super / locals, not the top one's
+            comp = ('objcomp', [('l', None, N(v3))], V('k'), False, ('binary', 'add', ('sfield', 'a'), V('l')), [('for', 'k', ('array', [S('c')]))])
+            prog = ('binary', 'add', ('binary', 'add', ('binary', 'add', ('object', [('fix', 'a', False, 'd', None, N(v1))]), comp),
+                                      ('object', [('fix', 'a', False, 'd', None, N(v2))])), ('object', [('fix', 'z', False, 'd', None, N(0))]))
+            out.append((prog, ('ok', {'a': v2, 'c': v1 + v3, 'z': 0})))
     return out
 
 
